@@ -46,6 +46,17 @@ def gen(seed):
                 spec['plan'].append({'site': 'layer.tearDown', 'ident': srng.choice(cands),
                                      'a': 'raise', 'exc': 'NotImplementedError',
                                      'where': 'parent'})
+    if seed % 7 == 3 and not spec['opt'].get('j'):
+        # reading the stderr of a resumed child fails (EIO): its report is lost, which is an
+        # error of that layer - the parent must not start the next layer as if nothing happened
+        spec.setdefault('knobs', {})['stderr_read_error'] = 1 + (seed // 7) % 2
+        if not any(e.get('exc') == 'NotImplementedError' for e in spec['plan']):
+            cands = [L['name'] for L in spec['world']['layers']
+                     if m.has_hook(L['name'], 'tearDown')]
+            if cands:
+                spec['plan'].append({'site': 'layer.tearDown', 'ident': srng.choice(cands),
+                                     'a': 'raise', 'exc': 'NotImplementedError',
+                                     'where': 'parent'})
     return spec
 
 
